@@ -4,6 +4,29 @@ VERIF = os.path.dirname(os.path.dirname(os.path.abspath(__file__)))
 ALL = ["C%02d" % i for i in range(1, 21)]
 
 CLAIMS = {
+ "C14": dict(
+    text="MathComp theorems over any ordered field with the code's own coefficients: the two evaluation formulas of each "
+         "method coincide; sample values are reproduced at the knots; every cubic piece has the spline's k values as end slopes "
+         "(C1); an interior row of the code's linear system holds iff the second derivatives of adjacent pieces agree (C2); the "
+         "natural / not-a-knot / periodic boundary rows are exactly (second derivative zero) / (third derivative continuous) / "
+         "(second derivative periodic); the bracket search returns an interval of the sorted grid containing the query (Z carrier); "
+         "the periodic / mirror / bound position maps land in range with the documented symmetry. The Gallina model of the whole "
+         "pipeline runs at IEEE binary64 against the public Interp1D (linear 2^-44, cspline 2^-26, extrapolated positions bit for bit).",
+    note="Trusted: Coq kernel + vm_compute + PrimFloat; torch.linalg.solve modelled by Gauss-Jordan; sort/searchsorted/gather "
+         "contracts; floor oracle validated by the model. Sorting, y at init/call, batches, extrapolation values and gradients are "
+         "implementation oracles. The clamped boundary rows are covered by the tie and the oracle only.",
+    technique="Coq/MathComp field identities on the code's coefficients + float model correspondence",
+    ref="DESIGN.md section 7, C14"),
+ "C15": dict(
+    text="MathComp theorems: the trapz piece, the cubic-Hermite piece ((yl+yr)dx/2 + (kl-kr)dx^2/12) and the irregular-spacing "
+         "Simpson weights (even double-interval weights and odd-index correction integrate 1, s, s^2 exactly) are the exact "
+         "integrals of the respective interpolants; the trapz weight matrix has a zero first row and consecutive rows differ by the "
+         "next interval's trapezoid. The Gallina model of the three weight builders runs at IEEE binary64 against the public SQuad: "
+         "trapz and simpson matrices and the cspline gradient weights bit for bit, cspline cumsum to 2^-26.",
+    note="Trusted: Coq kernel + vm_compute + PrimFloat; harness. The cumulative structure of the simpson and cspline matrices "
+         "beyond their piece weights, dim/keepdim handling, linearity and rejections are implementation oracles.",
+    technique="Coq/MathComp field identities + bit-exact weight-matrix correspondence",
+    ref="DESIGN.md section 7, C15"),
  "C12": dict(
     text="MathComp theorems over any ordered field, any number of nodes: a reference rule whose moments are exact up to degree d "
          "gives, after the affine map the code applies, a rule that integrates every monomial of degree <= d exactly on [xl, xu] "
